@@ -3499,6 +3499,7 @@ class Transformable:
     def __init__(self, *args, **kwargs):
         self._length = None
         self._lengths = None
+        self._length_settings = None
         self.transform = None
         self.apply = None
 
@@ -3786,9 +3787,12 @@ class Shape(SVGElement, GraphicObject, Transformable):
         """
         if segments is None:
             segments = self.segments(False)
-        if self._length is not None:
-            return
+        if self._length is not None and self._length_settings is not None:
+            cached_error, cached_depth = self._length_settings
+            if cached_error <= error and cached_depth >= min_depth:
+                return  # The cached lengths are at least as fine as what is asked for.
         lengths = [each.length(error=error, min_depth=min_depth) for each in segments]
+        self._length_settings = (error, min_depth)
         self._length = sum(lengths)
         if self._length == 0:
             self._lengths = lengths
@@ -3808,8 +3812,7 @@ class Shape(SVGElement, GraphicObject, Transformable):
         if len(segments) == 0:
             return None
         # Shortcuts
-        if self._length is None:
-            self._calc_lengths(error=error, segments=segments)
+        self._calc_lengths(error=error, segments=segments)
         xy = np.empty((len(positions), 2), dtype=float)
         if self._length == 0:
             # all segments have 0 length
@@ -3862,8 +3865,7 @@ class Shape(SVGElement, GraphicObject, Transformable):
         except ValueError:
             return self.npoint([position], error=error)[0]
 
-        if self._length is None:
-            self._calc_lengths(error=error, segments=segments)
+        self._calc_lengths(error=error, segments=segments)
 
         if self._length == 0:
             i = int(round(position * (len(segments) - 1)))
